@@ -43,13 +43,13 @@ Lemma Pres_gets : forall {A} (f : state -> A), Pres (gets f).
 Proof. intros A f st H. simpl. auto. Qed.
 
 (* prior passing only thaws: flags and caches change, the composition does not *)
-Lemma Pres_derive : forall n idf a o, Pres (derive n idf a o).
+Lemma Pres_derive : forall cfg n idf a o, Pres (derive cfg n idf a o).
 Proof.
-  induction n as [|n IH]; intros idf a o; simpl; [apply Pres_raise|].
+  intros cfg. induction n as [|n IH]; intros idf a o; simpl; [apply Pres_raise|].
   assert (Hneed : forall p, Pres (if memb (idf p) a then ret tt else raise EKeyError)).
   { intros p. destruct (memb (idf p) a); [apply Pres_ret|apply Pres_raise]. }
   apply Pres_bind; [apply Pres_gets|]. intros [[[cls| |] attrs]|]; [| |apply Pres_ret|apply Pres_raise].
-  - apply Pres_bind. { first [apply Pres_unfreeze | apply Pres_ret | (destruct derive_thaws; [apply Pres_unfreeze|apply Pres_ret])]. } intros _.
+  - apply Pres_bind. { destruct (dthaws cfg); [apply Pres_unfreeze|apply Pres_ret]. } intros _.
     apply Pres_bind. { apply Pres_mapM. intros [k v]. simpl. destruct v; try apply Pres_ret. apply Hneed. } intros _.
     apply Pres_bind.
     { apply Pres_mapM. intros [k v]. simpl. destruct v as [p|c|c]; try apply Pres_ret.
@@ -64,7 +64,7 @@ Proof.
     apply Pres_bind; [apply Pres_gets|]. intros [|]; [apply IH|apply Pres_ret].
 Qed.
 
-Lemma Pres_op_derive : forall o, Pres (op_derive o).
+Lemma Pres_op_derive : forall cfg o, Pres (op_derive cfg o).
 Proof.
   intros. unfold op_derive. apply Pres_bind; [apply Coh_Pres, Coh_call_attr|]. intros c.
   apply Pres_bind; [apply Coh_Pres, Coh_as_list|]. intros l.
@@ -362,7 +362,7 @@ Fixpoint pure_outcomes (cfg : config) (ops : list op) (st : state) : bool :=
 Definition check_guard (c : case) : bool :=
   match c with
   | Case cl pr ops outs fz =>
-      let cfg := mkConfig cl pr wrapper_cleanup in
+      let cfg := mkConfig cl pr wrapper_cleanup derive_thaws setitem_transfers in
       guardedb cfg ops (init cfg) && pure_outcomes cfg ops (init cfg)
   end.
 
@@ -382,5 +382,5 @@ Definition coherent_everywhere (cfg : config) : Prop :=
     snd (run cfg pre (init cfg)) ++ [snd (run_query cfg o q (fresh (fst (run cfg pre (init cfg)))))].
 
 (* with the repaired wrapper a failing call is harmless *)
-Theorem repaired_allows_failing_calls : forall cl pr st o, guard (mkConfig cl pr true) st (OFailWalk o).
+Theorem repaired_allows_failing_calls : forall cl pr d i st o, guard (mkConfig cl pr true d i) st (OFailWalk o).
 Proof. intros. reflexivity. Qed.
